@@ -26,6 +26,7 @@ type C12Case struct {
 	Post        [][]byte `json:"post,omitempty"`        // files added after the parsed one
 	ReaderFirst bool     `json:"readerFirst,omitempty"` // the reader is created before the file is added to the set
 	Touch       bool     `json:"touch,omitempty"`       // positions of the surrounding files are looked up on the set before and between the renderings
+	Twice       bool     `json:"twice,omitempty"`       // the parsed file is added to its set a second time (AddFile) before the parse
 	Reuse       bool     `json:"reuse,omitempty"`       // file and reader were already used for a parse (file alone in a set) before the file is placed
 	ReuseCtx    bool     `json:"reuseCtx,omitempty"`    // with Reuse: the very same context served the first evaluation (file in no set yet) and serves the parse after placement
 	GiantPre    bool     `json:"giantPre,omitempty"`    // a first file of 2^31 bytes (a stand-in that only knows its length): base offsets beyond 32 bits
@@ -147,6 +148,7 @@ func genC12(t *rapid.T) interface{} {
 	}
 	c.ReaderFirst = rapid.IntRange(0, 2).Draw(t, "readerFirst") == 0
 	c.Touch = rapid.Bool().Draw(t, "touch")
+	c.Twice = rapid.IntRange(0, 5).Draw(t, "twice") == 0
 	c.Reuse = rapid.IntRange(0, 3).Draw(t, "reuse") == 0
 	c.ReuseCtx = rapid.Bool().Draw(t, "reuseCtx")
 	c.GiantPre = rapid.IntRange(0, 9).Draw(t, "giant") == 4
@@ -268,6 +270,11 @@ func runC12(c *C12Case, pre, post [][]byte, readerFirst, touch, reuse, reuseCtx,
 		}
 	} else {
 		fs = parsley.NewFileSet(fl...)
+	}
+	if c.Twice && len(fl) > 1 && !giant {
+		// the file is registered a second time with the same set (a caller that adds every file of a
+		// directory and then the main file again): it gets a second place, behind everything else
+		fs.AddFile(f)
 	}
 	var others []parsley.Pos
 	for _, g := range fl {
@@ -401,6 +408,17 @@ func checkC12(ci interface{}, st *Stats) error {
 	for _, p := range pre {
 		wantBase += len(normCRLF(p)) + 1
 	}
+	if c.Twice && !c.GiantPre && len(pre)+len(c.Post) > 0 {
+		// its second place: behind its first one and behind the following files
+		content := []byte(c.In)
+		if c.Lit != nil {
+			content = c.Lit.Data
+		}
+		wantBase += len(normCRLF(content)) + 1
+		for _, p := range c.Post {
+			wantBase += len(normCRLF(p)) + 1
+		}
+	}
 	if alone.Base != 1 || placed.Base != wantBase {
 		return fmt.Errorf("base offsets %d / %d, want 1 / %d", alone.Base, placed.Base, wantBase)
 	}
@@ -417,6 +435,9 @@ func checkC12(ci interface{}, st *Stats) error {
 		st.Class("call count differs with placement (recorded, not a violation)")
 	}
 	st.Class("workload " + c.Workload)
+	if c.Twice && !c.GiantPre {
+		st.Class("the parsed file was added to its set twice")
+	}
 	if c.Touch {
 		st.Class("positions of the other files looked up in between")
 	}
